@@ -37,7 +37,7 @@ fn live_values_text(vs: &VStore, root: &str) -> Vec<((u64, u32), bool, Vec<u16>)
 #[derive(Clone)]
 struct Sticky { bytes: Vec<u8>, v2: bool, json: Option<String>, root: &'static str, anchor: Option<(u64, u32)>, after: bool, created_at: u64, index: u32 }
 #[derive(Clone)]
-struct Quote { key: String, root: &'static str, start: Option<((u64, u32), bool)>, end: Option<((u64, u32), bool)>, range: String }
+struct Quote { key: String, root: &'static str, start: Option<((u64, u32), bool)>, end: Option<((u64, u32), bool)>, range: String, empty_when_made: bool }
 
 fn expected_offset(units: &[(u64, u32, bool)], anchor: Option<(u64, u32)>, after: bool) -> Option<u32> {
     match anchor {
@@ -86,7 +86,7 @@ fn run_case(seed: u64, index: u64, rep: &mut Report, want: &[&str]) {
     let mut subs = vec![];
     // notification: per (replica, quotation) an observer registered as soon as the quotation exists there, the ids it showed after the
     // previous step and the observer's call count at that time
-    let mut watch: std::collections::BTreeMap<(usize, usize), (Arc<AtomicU64>, Option<Vec<(u64, u32)>>, u64)> = std::collections::BTreeMap::new();
+    let mut watch: std::collections::BTreeMap<(usize, usize), (Arc<AtomicU64>, Option<Vec<(u64, u32)>>, u64, BTreeSet<(u64, u32)>)> = std::collections::BTreeMap::new();
     for step in 0..steps {
         let i = r.below(nrep as u64) as usize;
         let cand: Vec<usize> = (0..msgs.len()).filter(|m| !delivered[i].contains(m)).collect();
@@ -170,7 +170,7 @@ fn run_case(seed: u64, index: u64, rep: &mut Report, want: &[&str]) {
             let q = Quote { key: key.clone(), root,
                 start: match sb { 0 => Some((live[a], true)), 1 => Some((live[a], false)), _ => None },
                 end: match eb { 0 => Some((live[b], true)), 1 => Some((live[b], false)), _ => None },
-                range: format!("{:?}..{:?}", start, end) };
+                range: format!("{:?}..{:?}", start, end), empty_when_made: sb == 1 && eb == 1 && b - a == 1 };
             quotes.push(q);
             script.push(format!("r{} quote {} of {} range {:?}..{:?}", i, key, root, start, end));
             rep.count("quotes_created");
@@ -201,8 +201,8 @@ fn run_case(seed: u64, index: u64, rep: &mut Report, want: &[&str]) {
                 rep.add("quote_dereferences", 1);
                 // ---- observers of a quotation are notified when content inside its range changes
                 {
+                    let us: Vec<((u64, u32), bool)> = if q.root == ROOT_ARRAY { units_of_root(&vs, ROOT_ARRAY).iter().map(|u| ((u.0, u.1), u.2)).collect() } else { live_values_text(&vs, ROOT_TEXT).iter().map(|u| (u.0, u.1)).collect() };
                     let ids_now: Option<Vec<(u64, u32)>> = {
-                        let us: Vec<((u64, u32), bool)> = if q.root == ROOT_ARRAY { units_of_root(&vs, ROOT_ARRAY).iter().map(|u| ((u.0, u.1), u.2)).collect() } else { live_values_text(&vs, ROOT_TEXT).iter().map(|u| (u.0, u.1)).collect() };
                         let si = match q.start { Some((id, _)) => us.iter().position(|u| u.0 == id), None => Some(0) };
                         let ei = match q.end { Some((id, _)) => us.iter().position(|u| u.0 == id), None => Some(us.len().saturating_sub(1)) };
                         match (si, ei) { (Some(si), Some(ei)) => {
@@ -215,18 +215,41 @@ fn run_case(seed: u64, index: u64, rep: &mut Report, want: &[&str]) {
                             let f = Arc::new(AtomicU64::new(0)); let f2 = f.clone();
                             if q.root == ROOT_ARRAY { let wr: WeakRef<ArrayRef> = WeakRef::from(w.clone()); subs.push(wr.observe(move |_, _| { f2.fetch_add(1, Ordering::SeqCst); })); }
                             else { let wr: WeakRef<TextRef> = WeakRef::from(w.clone()); subs.push(wr.observe(move |_, _| { f2.fetch_add(1, Ordering::SeqCst); })); }
-                            watch.insert((ri, qi), (f, ids_now, 0));
+                            watch.insert((ri, qi), (f, ids_now, 0, BTreeSet::new()));
                         }
-                        Some((f, before, seen)) => {
+                        Some((f, before, seen, unreg)) => {
                             let calls = f.load(Ordering::SeqCst);
                             if let (Some(b), Some(n)) = (before.as_ref(), ids_now.as_ref()) {
                                 if b != n {
                                     rep.add("quoted_range_changes_observed", 1);
+                                    // yrs registers a new element for a quotation through its neighbours (join_linked_range): both neighbours
+                                    // registered; or the left one registered and the end of the range exclusive; or the right one registered and
+                                    // the new element directly behind the exclusive start boundary; or (21e026d) a registered neighbour on one
+                                    // side, no element at all on the other and no bound there. A registered element is a live element of the
+                                    // range that joined it this way or was in it when the quotation was made / arrived (deletion unregisters).
+                                    // Elements that are shown but cannot be registered by this rule are the known finding; they are remembered.
+                                    let registered = |u: Option<&((u64, u32), bool)>, unreg: &BTreeSet<(u64, u32)>| -> bool { match u { Some((id, live)) => *live && b.contains(id) && !unreg.contains(id), None => false } };
+                                    let added: Vec<(u64, u32)> = n.iter().filter(|x| !b.contains(x)).cloned().collect();
+                                    let removed: Vec<(u64, u32)> = b.iter().filter(|x| !n.contains(x)).cloned().collect();
+                                    let mut must_notify = removed.iter().any(|x| !unreg.contains(x));
+                                    let mut k = 0;
+                                    while k < us.len() {
+                                        if !added.contains(&us[k].0) { k += 1; continue; }
+                                        let start_k = k; while k < us.len() && (added.contains(&us[k].0)) { k += 1; }
+                                        let (l, r) = (if start_k > 0 { us.get(start_k - 1) } else { None }, us.get(k));
+                                        let (lreg, rreg) = (registered(l, unreg), registered(r, unreg));
+                                        let links = (lreg && rreg)
+                                            || (lreg && !rreg && r.is_some() && matches!(q.end, Some((_, false))))
+                                            || (rreg && !lreg && matches!(q.start, Some((id, false)) if l.map(|x| x.0) == Some(id)))
+                                            || (lreg && r.is_none() && q.end.is_none())
+                                            || (rreg && l.is_none() && q.start.is_none());
+                                        if links { must_notify = true; } else { for x in &us[start_k..k] { unreg.insert(x.0); } }
+                                    }
+                                    for x in &removed { unreg.remove(x); }
                                     if calls == *seen {
-                                        let added: Vec<String> = n.iter().filter(|x| !b.contains(x)).map(|x| format!("{:x}:{:x}", x.0, x.1)).collect();
-                                        let removed: Vec<String> = b.iter().filter(|x| !n.contains(x)).map(|x| format!("{:x}:{:x}", x.0, x.1)).collect();
-                                        fails.push(json!({"property": "C20", "class": if q.start.is_none() || q.end.is_none() { "quotation-without-a-lower-or-upper-bound-misses-a-notification" } else if b.is_empty() { "quotation-that-showed-nothing-misses-a-notification" } else if removed.is_empty() { "quotation-observer-not-notified-of-an-insertion-inside-the-range" } else if added.is_empty() { "quotation-observer-not-notified-of-a-removal-inside-the-range" } else { "quotation-observer-not-notified-of-a-change-inside-the-range" },
-                                            "quote": q.key, "range": q.range, "root": q.root, "replica": ri, "step": step, "acting_replica": i, "added": added, "removed": removed}));
+                                        let (adds, rems): (Vec<String>, Vec<String>) = (added.iter().map(|x| format!("{:x}:{:x}", x.0, x.1)).collect(), removed.iter().map(|x| format!("{:x}:{:x}", x.0, x.1)).collect());
+                                        let class = if !must_notify { "quotation-misses-elements-without-a-registered-neighbour" } else if removed.is_empty() { "quotation-observer-not-notified-of-an-insertion-inside-the-range" } else if added.is_empty() { "quotation-observer-not-notified-of-a-removal-inside-the-range" } else { "quotation-observer-not-notified-of-a-change-inside-the-range" };
+                                        fails.push(json!({"property": "C20", "class": class, "quote": q.key, "range": q.range, "root": q.root, "replica": ri, "step": step, "acting_replica": i, "added": adds, "removed": rems}));
                                     }
                                 }
                             }
